@@ -575,6 +575,13 @@ def _co_scenario(r, ses):
                 if w not in m:
                     continue
                 ps = m[w]
+            if r.random() < 0.2 and ps:
+                # the prefix list is the caller's: a prefix given twice, or together with one of its own stem-prefixes
+                from .gen import stems_of as _st
+                ps = list(ps)
+                q = r.choice(ps)
+                st = _st(q)
+                ps.insert(r.randint(0, len(ps)), q if r.random() < 0.5 or len(st) < 2 else b"".join(st[: r.randint(1, len(st) - 1)]))
             reqs.append(_we_query(r, k, w, ps))
         else:
             o, a = r.choice("01"), r.choice("01")
